@@ -301,10 +301,17 @@ static void mix_pair(uint64_t a, uint64_t b, bool is32) {
  * a size_t pointer and a struct field; the reference folds in 128-bit arithmetic and stops at the first step that does not fit */
 static void acc_case(uint64_t a, uint64_t b) {
     const uint64_t f[5] = {a, b, 3, b, a | 1};
-    for (int op = 0; op < 2; ++op) {
-        uint64_t want = op ? 1 : 0;
+    static const char *const OPN64[3] = {"add_u64_checked", "mul_u64_checked", "sub_u64_checked"};
+    static const char *const OPNSZ[3] = {"add_size_checked", "mul_size_checked", "sub_size_checked"};
+    for (int op = 0; op < 3; ++op) {
+        uint64_t want = op == 2 ? UINT64_MAX : op ? 1 : 0;
         int want_stop = 0; /* 0 = all five steps fit, else 1 + index of the first step that does not */
         for (int i = 0; i < 5 && !want_stop; ++i) {
+            if (op == 2) {
+                if (f[i] > want) want_stop = i + 1;
+                else want -= f[i];
+                continue;
+            }
             u128 ex = op ? (u128)want * f[i] : (u128)want + f[i];
             if (ex > UINT64_MAX) want_stop = i + 1;
             else want = (uint64_t)ex;
@@ -313,22 +320,22 @@ static void acc_case(uint64_t a, uint64_t b) {
             uint64_t acc = 0x5a5a;
             int stop = tabs[ti]->acc64(&acc, f, 5, op);
             if (stop != want_stop || (!want_stop && acc != want))
-                c16_fail(op ? "mul_u64_checked" : "add_u64_checked", tabs[ti], "wrong_when_accumulating_in_place", "fold of {0x%" PRIx64 ",0x%" PRIx64 ",3,0x%" PRIx64 ",0x%" PRIx64 "} through a pointer: got 0x%" PRIx64
+                c16_fail(OPN64[op], tabs[ti], "wrong_when_accumulating_in_place", "fold of {0x%" PRIx64 ",0x%" PRIx64 ",3,0x%" PRIx64 ",0x%" PRIx64 "} through a pointer: got 0x%" PRIx64
                          " (stopped at step %d), exact 0x%" PRIx64 " (stops at step %d)", f[0], f[1], f[3], f[4], acc, stop, want, want_stop);
             size_t accs = 0x5a5a;
             size_t fs[5] = {(size_t)f[0], (size_t)f[1], 3, (size_t)f[3], (size_t)f[4]};
             stop = tabs[ti]->accsz(&accs, fs, 5, op);
             if (stop != want_stop || (!want_stop && (uint64_t)accs != want))
-                c16_fail(op ? "mul_size_checked" : "add_size_checked", tabs[ti], "wrong_when_accumulating_in_place", "fold of {0x%" PRIx64 ",0x%" PRIx64 ",3,...} through a size_t pointer: got 0x%zx (stopped at step %d), exact 0x%" PRIx64
+                c16_fail(OPNSZ[op], tabs[ti], "wrong_when_accumulating_in_place", "fold of {0x%" PRIx64 ",0x%" PRIx64 ",3,...} through a size_t pointer: got 0x%zx (stopped at step %d), exact 0x%" PRIx64
                          " (stops at step %d)", f[0], f[1], accs, stop, want, want_stop);
             struct c16_accbox box = {.tag = 7, .value = 0x5a5a, .count = 99};
             stop = tabs[ti]->accfield(&box, f, 5, op);
             if (stop != want_stop || (!want_stop && box.value != want) || box.tag != 7)
-                c16_fail(op ? "mul_u64_checked" : "add_u64_checked", tabs[ti], "wrong_when_accumulating_in_place", "fold of {0x%" PRIx64 ",0x%" PRIx64 ",3,...} into a struct field: got 0x%" PRIx64 " (stopped at step %d), exact 0x%" PRIx64
+                c16_fail(OPN64[op], tabs[ti], "wrong_when_accumulating_in_place", "fold of {0x%" PRIx64 ",0x%" PRIx64 ",3,...} into a struct field: got 0x%" PRIx64 " (stopped at step %d), exact 0x%" PRIx64
                          " (stops at step %d)", f[0], f[1], box.value, stop, want, want_stop);
         }
     }
-    V_COUNT("evaluations", 6 * NTABS);
+    V_COUNT("evaluations", 9 * NTABS);
 }
 
 static uint64_t total_pairs64(void) { return (uint64_t)B64.n * B64.n; }
